@@ -41,7 +41,7 @@ def _compile_file(path, syntax_only):
     cmd = ["gfortran", "-fopenmp", "-fopenacc", "-fmax-errors=0"]
     cmd += ["-fsyntax-only"] if syntax_only else ["-S", "-o", "/dev/null"]
     try:
-        p = subprocess.run(cmd + [str(path)], cwd=str(path.parent), capture_output=True, text=True, timeout=300)
+        p = subprocess.run(cmd + [str(path)], cwd=str(path.parent), capture_output=True, text=True, timeout=3600)
     except subprocess.TimeoutExpired:
         return None
     errs = []
@@ -100,7 +100,7 @@ def compile_texts(ctx, texts, tag, group=None, batch=150):
                 names.append(g.name)
             try:
                 p = subprocess.run(["gfortran", "-fopenmp", "-fopenacc", "-fmax-errors=0", "-S"] + names, cwd=str(d),
-                                   capture_output=True, text=True, timeout=1800)
+                                   capture_output=True, text=True, timeout=7200)
             except subprocess.TimeoutExpired:
                 raise RuntimeError("gfortran timed out in %s" % d)
             stats["f951"] += len(part)
@@ -302,7 +302,7 @@ def gen_witness_file(ctx):
 def run(ctx):
     ctx.cov["rule"] = (
         "systematic: every ordered pair of the 14 loop/region transformations on a 2-nest and directly nested, each on a loop "
-        "holding a RETURN, collapse=2 on both imperfect 2-nests, enter data inside each region, all followed by 2 (quick) / 11 "
+        "holding a RETURN, collapse=2 on both imperfect 2-nests, enter data inside each region, all followed by 2 (quick) / 6 "
         "(thorough) enclosing-region suffixes; histories: random mostly-valid sequences (<=4 quick, <=6 thorough) of OMPLoopTrans(do|paralleldo|"
         "teamsdistributeparalleldo|loop), OMPParallelLoopTrans, OMPTaskloopTrans, ACCLoopTrans (collapse None/1/2/3, "
         "force or dependence analysis), OMPParallel/Single/Master/Target, ACCParallel/Kernels/Data region transformations "
@@ -354,7 +354,7 @@ def run(ctx):
 
     # ---- 2. implementation runs
     rng = ctx.rng("hist")
-    n_hist = ctx.pick(110, 1300)
+    n_hist = ctx.pick(80, 800)
     maxlen = ctx.pick(4, 6)
     steps, finals = [], []       # finals: dict(tree, wverdict, text, source, log, skeleton)
     pool = [spec.gen_skeleton(rng, 3) for _ in range(max(8, n_hist // ctx.pick(4, 3)))]   # parsed once each
@@ -389,7 +389,7 @@ def run(ctx):
     # deterministic part: every ordered pair of transformations (see spec.systematic_histories)
     n_sys = 0
     omp_only = lambda ops: all(o[0].startswith("OMP") for o in ops)   # noqa: E731
-    sys_hist = spec.systematic_histories(spec.TOPS[:1] if not ctx.thorough else spec.TOPS)
+    sys_hist = spec.systematic_histories(spec.TOPS[:1] if not ctx.thorough else spec.TOPS[:4] + spec.TOPS[6:8])
     if not ctx.thorough:
         # an enclosing OMP parallel region only matters for histories made of OpenMP transformations
         sys_hist += [h for h in spec.systematic_histories(spec.TOPS[1:2]) if omp_only(h[1])]
@@ -419,7 +419,7 @@ def run(ctx):
 
     # directly built trees: writer with checks (gen_ok correspondence) and without (spec validation)
     rngd = ctx.rng("direct")
-    n_direct = ctx.pick(100, 1200)
+    n_direct = ctx.pick(80, 700)
     unchecked = []
     seen_direct = set()
     for k in range(n_direct):
@@ -525,6 +525,10 @@ def run(ctx):
         cck = spec.cc_keys(u["tree"])
         acc, msg = u["gf"]
         ctx.hist("unchecked_gfortran", "accepted" if acc else "rejected")
+        # how the three named conditions relate to the compiler on trees built without any validation
+        wfv = sorted({spec.WF_NAMES[c] + ("/OMP" if k.startswith("OMP") else "/ACC") for c, k in spec.wf_viol(u["tree"])})
+        for w in (wfv or ["WF-holds"]):
+            ctx.hist("wf_vs_gfortran_on_unvalidated_trees", "%s:%s" % (w, "accepted" if acc else "rejected"))
         if acc and cck and not spec.acc_intervening(u["tree"]):
             spec_bad.append({"tree": u["tree"], "cc": cck, "text": u["text"]})
         if not acc and not cck:
